@@ -255,7 +255,52 @@ class GammaPrec(Family):
         return lsl.GraphBuilder().add(y).build_model(), {"tau": "tau"}
 
 
-FAMILIES = {f.name: f for f in (NormalMS, LinReg, Poisson, Logistic, BVN, GammaPrec)}
+class SpikeSlab(Family):
+    """delta in {0, 1} (finite-discrete prior), beta | delta ~ N(0, s[delta]), y_i ~ N(beta, 1): the prior of ANOTHER parameter depends on the
+    discrete one.  delta is sampled by the library's finite-discrete Gibbs kernel (Liesel models) or an exact Gibbs conditional (dict models)."""
+
+    name = "spike_slab"
+    blocks = {"delta": (), "beta": ()}
+    p1, s = 0.4, (0.3, 2.0)
+
+    def sample(self, rng, N):
+        delta = (rng.random(N) < self.p1).astype(np.float64)
+        beta = rng.normal(size=N) * np.where(delta == 1, self.s[1], self.s[0])
+        y = beta[:, None] + rng.normal(size=(N, self.n))
+        return {"delta": delta, "beta": beta}, y
+
+    def logp(self, s):
+        d, b, y = s["delta"], s["beta"], s["y"]
+        sd = jnp.where(d == 1, self.s[1], self.s[0])
+        return jnp.where(d == 1, math.log(self.p1), math.log(1 - self.p1)) - 0.5 * (b / sd) ** 2 - jnp.log(sd) + jnp.sum(-0.5 * (y - b) ** 2)
+
+    def pit(self, th):
+        u = np.random.default_rng(20240521).random(len(th["delta"]))          # the same randomisation before and after (randomised PIT of a discrete value)
+        ud = np.where(th["delta"] == 1, (1 - self.p1) + u * self.p1, u * (1 - self.p1))
+        return {"delta": ud, "beta": (1 - self.p1) * sps.norm.cdf(th["beta"], 0, self.s[0]) + self.p1 * sps.norm.cdf(th["beta"], 0, self.s[1])}
+
+    def loglik(self, th, y):
+        return np.sum(sps.norm.logpdf(y, th["beta"][:, None], 1.0), axis=1)
+
+    def gibbs(self, which, getter):
+        def fn(key, state):
+            b = getter(state, "beta")
+            l1 = math.log(self.p1) - 0.5 * (b / self.s[1]) ** 2 - math.log(self.s[1])
+            l0 = math.log(1 - self.p1) - 0.5 * (b / self.s[0]) ** 2 - math.log(self.s[0])
+            return {"delta": (jax.random.uniform(key) < jax.nn.sigmoid(l1 - l0)).astype(jnp.float32)}
+
+        return fn
+
+    def liesel(self, transformed):
+        delta = lsl.param(np.float32(0.0), lsl.Dist(tfd.FiniteDiscrete, outcomes=np.array([0.0, 1.0], dtype=np.float32), probs=np.array([1 - self.p1, self.p1], dtype=np.float32)), name="delta")
+        sd = lsl.Var(lsl.Calc(lambda d: jnp.where(jnp.asarray(d) == 1, jnp.float32(self.s[1]), jnp.float32(self.s[0])), delta), name="sd")
+        beta = lsl.param(np.float32(0.0), lsl.Dist(tfd.Normal, loc=np.float32(0.0), scale=sd), name="beta")
+        y = lsl.obs(np.zeros(self.n, dtype=np.float32), lsl.Dist(tfd.Normal, loc=beta, scale=np.float32(1.0)), name="y")
+        self.lsl_model = lsl.GraphBuilder().add(y).build_model()
+        return self.lsl_model, {"delta": "delta", "beta": "beta"}
+
+
+FAMILIES = {f.name: f for f in (NormalMS, LinReg, Poisson, Logistic, BVN, GammaPrec, SpikeSlab)}
 GRADIENT = ["nuts", "hmc", "iwls", "rw", "mh"]
 
 
@@ -264,15 +309,19 @@ def gen():
 
     @st.composite
     def g(draw):
-        fam = draw(st.sampled_from(sorted(FAMILIES) + ["bvn", "normal_ms", "poisson", "logistic"]))
+        fam = draw(st.sampled_from(sorted(FAMILIES) + ["bvn", "normal_ms", "poisson", "logistic", "spike_slab"]))
         blocks = list(FAMILIES[fam].blocks)
         joint = draw(st.integers(0, 3)) == 0 if len(blocks) > 1 else True          # mostly separate blocks: sequences of kernels
+        if fam == "spike_slab":
+            joint = False                                                           # a discrete and a continuous block
         groups = [blocks] if joint else [[b] for b in draw(st.permutations(blocks))]
         kernels = []
         for grp in groups:
             kinds = list(GRADIENT) if fam != "gamma_prec" else ["rw", "rw", "mh", "iwls"]     # natural-scale sampling of a bounded parameter
             if fam in ("linreg", "poisson", "logistic"):
                 kinds += ["iwls_fisher", "iwls_fisher"]
+            if fam == "spike_slab" and grp == ["delta"]:
+                kinds = ["disc"]
             if fam == "bvn" and len(grp) == 1:
                 kinds += ["gibbs", "gibbs", "gibbs"]
             kernels.append({"keys": list(grp), "kind": draw(st.sampled_from(kinds)), "step": draw(st.sampled_from([0.1, 0.2, 0.4, 0.8, 1.5])),
@@ -321,7 +370,11 @@ def make_kernel(k, fam, keymap, model_iface, getter):
             return gs.MHProposal(new, corr)
 
         return gs.MHKernel(keys, proposal, initial_step_size=s)
-    # exact Gibbs conditional (bvn only)
+    if kind == "disc" and getattr(fam, "lsl_model", None) is not None and hasattr(model_iface, "_model"):
+        from liesel.model.goose import finite_discrete_gibbs_kernel
+
+        return finite_discrete_gibbs_kernel(keymap["delta"], fam.lsl_model)      # the library's own Gibbs kernel for categorical parameters
+    # exact Gibbs conditional (bvn; spike_slab on dict models)
     which = k["keys"][0]
     inner = fam.gibbs(which, getter)
 
@@ -423,10 +476,10 @@ def oracle(c):
     if sig:
         kinds = "+".join(k["kind"] for k in c["kernels"])
         raise Violation(f"target-not-invariant:{kinds}", f"{sig}: {rep}; acceptance={info.get('accept')}; {c}")
-    acc_ok = all((0.02 < a < 0.98) or c["kernels"][int(kid[1:])]["kind"] in ("nuts", "gibbs") for kid, a in info["accept"].items())
-    nt = acc_ok and all(m >= 0.5 for m in info["moved"].values()) and c["K"] >= 3
+    acc_ok = all((0.02 < a < 0.98) or c["kernels"][int(kid[1:])]["kind"] in ("nuts", "gibbs", "disc") for kid, a in info["accept"].items())
+    nt = acc_ok and all(m >= 0.5 for kk, m in info["moved"].items() if kk != "delta") and c["K"] >= 3
     cls = [c["family"], "liesel" if c["liesel"] else "dict", "+".join(k["kind"] for k in c["kernels"]), "K>=3" if c["K"] >= 3 else "K<3",
-           "acc-ok" if acc_ok else "acc-extreme", "moved" if all(m >= 0.5 for m in info["moved"].values()) else "stuck",
+           "acc-ok" if acc_ok else "acc-extreme", "moved" if all(m >= 0.5 for kk, m in info["moved"].items() if kk != "delta") else "stuck",
            "auto-off" if (c.get("auto_off") and c["liesel"]) else "auto-on",
            "multi-chunk" if (c.get("chunk_pick", 0) % len([d for d in range(1, c["K"] + 1) if c["K"] % d == 0])) else "one-chunk"]
     return {"nt": bool(nt), "cls": cls, "extra": {"max_abs_z": rep["max_abs_z"], "suspicious": len(rep["suspicious"])}}
